@@ -142,3 +142,24 @@ def run_cases(chk, tag, cases, binary, header=HEADER, show_fn=None):
     if errors:
         raise vlib.Broken('model evaluation failed: ' + errors[0])
     return answers, [(idx[i], cd) for i, cd in bad], skipped
+
+
+def engine_compare(binary, cases, engines=('jit', 'cl'), kind='mbuff', profile='debug'):
+    """Run the cases on the interpreter and on the compiled engines (real crate only) and return
+    the list of disagreements on cases where the interpreter returns a value:
+    [(case index, engine, interp answer, engine answer)].  Also returns the parsed answers."""
+    res = {}
+    for eng in ('interp',) + tuple(engines):
+        res[eng] = [parse_answer(x) for x in vlib.harness_run(binary, [c.line(engine=eng, kind=kind) for c in cases])]
+    diffs = []
+    for i, c in enumerate(cases):
+        a = res['interp'][i]
+        if a['status'] != 0:
+            continue
+        for eng in engines:
+            b = res[eng][i]
+            same = (b['status'] == 0 and b['val'] == a['val'] and b['mem'] == a['mem'] and b['mbuff'] == a['mbuff']
+                    and b['xmem'] == a['xmem'])
+            if not same:
+                diffs.append((i, eng, a, b))
+    return res, diffs
